@@ -122,7 +122,22 @@ pub fn check_text(text: &str, origin: &Value, stats: &mut Stats) -> Result<Optio
     }
     // (4) verbatim regions copied unchanged
     for slice in f::verbatim_slices(text) {
-        if !out.contains(&slice) {
+        // byte-identical, or — for a multi-line payload embedded under another directive, which
+        // re-indents embedded blocks as a whole — identical line by line up to leading whitespace
+        let lines_in = |hay: &str, needle: &str| -> bool {
+            let h: Vec<&str> = hay.lines().map(|l| l.trim_start()).collect();
+            let n: Vec<&str> = needle.lines().map(|l| l.trim_start()).collect();
+            if n.is_empty() {
+                return true;
+            }
+            (0..h.len()).any(|i| {
+                i + n.len() <= h.len()
+                    && h[i].ends_with(n[0])
+                    && (1..n.len() - 1).all(|k| h[i + k] == n[k])
+                    && (n.len() == 1 || h[i + n.len() - 1].starts_with(n[n.len() - 1]))
+            })
+        };
+        if !out.contains(&slice) && !(slice.contains('\n') && lines_in(&out, &slice)) {
             return Err(Fail::new("verbatim-region-changed", "the verbatim payload to occur byte-identically in the output", format!("payload {:?}", slice.chars().take(200).collect::<String>())).with(case(&out)));
         }
         stats.count("verbatim-region");
